@@ -312,6 +312,14 @@ func cmdCheck() int {
 	dirs := map[string]bool{}
 	for _, h := range hs {
 		dirs[h.RelDir] = true
+		// packages that provide stub sets used by this harness are overlaid and loaded as well
+		for _, u := range h.Opts.Use {
+			for _, sd := range allStubs {
+				if sd.Set == u {
+					dirs[sd.RelDir] = true
+				}
+			}
+		}
 	}
 	var ovDecls []harnessDecl
 	seenFile := map[string]bool{}
@@ -331,6 +339,11 @@ func cmdCheck() int {
 				for _, h := range all {
 					if h.RelDir == d {
 						pn = h.PkgName
+					}
+				}
+				if pn == "" {
+					if f, err := parser.ParseFile(token.NewFileSet(), m, nil, parser.PackageClauseOnly); err == nil {
+						pn = f.Name.Name
 					}
 				}
 				ovDecls = append(ovDecls, harnessDecl{RelDir: d, File: m, PkgName: pn})
@@ -553,10 +566,13 @@ func runHarness(h harnessDecl, fn *ssa.Function, prog *ssa.Program) (rep *Harnes
 			}
 		}
 		if sp == nil {
+			fmt.Fprintf(os.Stderr, "warning: package %s of stub %s not loaded\n", sd.RelDir, sd.Func)
 			continue
 		}
 		if sf := sp.Func(sd.Func); sf != nil {
 			r.stubFns[sd.Target] = sf
+		} else {
+			fmt.Fprintf(os.Stderr, "warning: stub function %s not found in %s\n", sd.Func, sd.RelDir)
 		}
 	}
 	func() {
